@@ -8,7 +8,7 @@ import CohdlVerif.Model.C12
     hier  <design> | <clock> ; ...               simHier (emitHier d)      (elaboration of the emitted library)
     emit  <design>                               canonical rendering of `emitHier d`
 
-  <design> = (t NAME (ports (p NAME in|out KIND W) ..) (locals (l NAME KIND W DFLT|-) ..)
+  <design> = (t NAME (ports (p NAME in|out KIND W) ..) (locals (l NAME KIND W DFLT|- ELEMS) ..)   ELEMS > 1: array signal, stored flat
                 (logic (comb <ref> <expr>) (reg <ref> <expr>) ..) (insts (i <design> (a FORMAL <ref> 0|1) ..) ..))
   <ref>    = (r NAME LO W)
   <expr>   = <ref> | (c W N) | (not W e) | (and|or|xor|add|sub W a b)
@@ -46,11 +46,11 @@ def portOf : Sexp → Option Port
   | _ => none
 
 def localOf : Sexp → Option Local
-  | .list [.atom "l", .atom n, .atom k, w, d] => do
+  | .list [.atom "l", .atom n, .atom k, w, d, c] => do
       let dv ← (match d with
         | .atom "-" => some none
         | x => (x.asNat?).map some)
-      pure ⟨n, ⟨← kindOf k, ← w.asNat?⟩, dv⟩
+      pure ⟨n, ⟨← kindOf k, ← w.asNat?⟩, dv, ← c.asNat?⟩
   | _ => none
 
 def leafOf : Sexp → Option Leaf
